@@ -612,7 +612,7 @@ class SinkWorld:
         cur = self.cur or self.scan()
         res = {f: [] for f in ['main', 'node'] + COMMODS}
         for key, lines in cur.items():
-            if isinstance(key, tuple) and lines:      # an empty file holds no record
+            if isinstance(key, tuple):                # also an empty one: a file is made by its first line only
                 res[key[0]].append(key[1])
             elif isinstance(key, str) and key.startswith('stray:'):
                 res.setdefault('stray', []).append(key[6:])
